@@ -279,9 +279,9 @@ theorem go_le : ∀ e, Tot1 e := by
   -- array
   · intro i items ih exp G Γ s
     rw [go]
-    obtain ⟨ts, Γ1, s1, h1, l1⟩ := ih.2.2.2.1 s.mark.fresh.1 G Γ s.mark.fresh.2
+    obtain ⟨ts, Γ1, s1, h1, l1⟩ := ih.2.2.2.1 s.fresh.1 G Γ s.fresh.2
     simp only [h1]
-    exact finish_tot ((le_mark _).trans ((le_fresh _).trans l1)) _ _ _ _ _
+    exact finish_tot ((le_fresh _).trans l1) _ _ _ _ _
   -- constr
   · intro i info args ih exp G Γ s
     cases info with
